@@ -476,6 +476,12 @@ func InheritTags(w *World, sc Scenario) {
 		docTags[p.Dir] = p.DocTags
 		some = some || len(p.DocTags) > 0
 	}
+	for _, x := range sc.Module.Ext { // a run whose entrypoints lie in another workspace member has that member's packages
+		for _, p := range x.Pkgs {
+			docTags[strings.TrimSuffix(x.Dir+"/"+p.Dir, "/")] = p.DocTags
+			some = some || len(p.DocTags) > 0
+		}
+	}
 	if !some {
 		return
 	}
@@ -521,7 +527,7 @@ func RunScenario(sc Scenario, scratch string, wrapper ...string) (*Observation, 
 		return nil, err
 	}
 	job := Job{Dir: root, Entry: sc.Entry, All: sc.All, Force: sc.Force, Base: sc.Base, Gens: sc.Gens, Out: scratch + "/run",
-		Globals: sc.Globals, GlobalsSet: sc.GlobalsSet, Work: sc.Module.Work && len(sc.Module.Ext) > 0}
+		Globals: sc.Globals, GlobalsSet: sc.GlobalsSet, Work: sc.Module.Work != ""}
 	rr := RunChild(job, scratch, wrapper...)
 	InheritTags(rr.World, sc)
 	after, err := SnapshotModule(root, &sc.Module)
